@@ -2,7 +2,7 @@
 
 Seeded call histories (is_valid, iter_errors, lax/strict decode, validate, lazy run, to_objects, a validation hook that stops the run,
 encode) over a pool of documents exercising xsi:type, a key whose selector reaches extension-only children, ID/IDREF, a fixed value, a
-lax wildcard and malformed input; every step's result equals the result of the same call on a fresh schema.
+lax wildcard, an element reference selected by the key and used with another effective type, and malformed input; every step's result equals the result of the same call on a fresh schema.
 """
 import random
 from .common import pmap, result
@@ -14,11 +14,13 @@ SCHEMA = f'''<xs:schema {XS}>
  <xs:complexType name="E1"><xs:complexContent><xs:extension base="B"><xs:sequence><xs:element name="sub" minOccurs="0" maxOccurs="unbounded"><xs:complexType><xs:attribute name="k" type="xs:int"/></xs:complexType></xs:element></xs:sequence></xs:extension></xs:complexContent></xs:complexType>
  <xs:element name="r"><xs:complexType><xs:sequence>
    <xs:element name="item" type="B" maxOccurs="unbounded"/>
+   <xs:element ref="gitem" minOccurs="0" maxOccurs="unbounded"/>
    <xs:element name="fix" type="xs:decimal" fixed="1.0" minOccurs="0"/>
    <xs:any namespace="##other" processContents="lax" minOccurs="0"/>
   </xs:sequence><xs:attribute name="id" type="xs:ID"/><xs:attribute name="ref" type="xs:IDREF"/></xs:complexType>
-  <xs:key name="K"><xs:selector xpath="item|item/sub"/><xs:field xpath="@k"/></xs:key>
- </xs:element></xs:schema>'''
+  <xs:key name="K"><xs:selector xpath="item|item/sub|gitem|gitem/sub"/><xs:field xpath="@k"/></xs:key>
+ </xs:element>
+ <xs:element name="gitem" type="B"/></xs:schema>'''
 DOCS = [
     f'<r {XSI}><item k="1"><a>x</a></item><item k="2"><a>y</a></item></r>',
     f'<r {XSI}><item k="1"><a>x</a></item><item k="1"><a>y</a></item></r>',
@@ -30,6 +32,10 @@ DOCS = [
     f'<r {XSI}><item k="3" xsi:type="Nope"><a>x</a></item></r>',
     f'<r {XSI} xmlns:xs="http://www.w3.org/2001/XMLSchema"><item k="1"><a>x</a></item><fix xsi:type="xs:integer">1</fix></r>',      # a fixed value seen first through another effective type
     f'<r {XSI}><item k="1"><a>x</a></item><fix>1.000</fix></r>',
+    # an element REFERENCE selected by the key, seen with another effective type; later the global declaration is used directly
+    f'<r {XSI}><item k="1"><a>x</a></item><gitem k="5" xsi:type="E1"><a>x</a><sub k="6"/></gitem></r>',
+    f'<r {XSI}><item k="1"><a>x</a></item><gitem k="5"><a>x</a></gitem><gitem k="5"><a>y</a></gitem></r>',
+    '<gitem k="1"><a>x</a></gitem>', '<gitem k="1"><a>x</a><sub k="2"/></gitem>',
 ]
 OPS = ['is_valid', 'iter_errors', 'decode_lax', 'decode_strict', 'validate', 'lazy', 'to_objects', 'stop', 'encode']
 
